@@ -12,7 +12,8 @@ PROP = {"D1-revert": "C17", "D12-revert": "C10", "D17-revert": "C14", "D2-revert
 # (a consumer of the anchored code): the check that sees that code is the one run against them
 CROSS = {"C01-r3-2": "C11", "C01-r3-3": "C08", "C01-r3-4": "C07", "C04-r3-3": "C08",
          "C01-r4-1": "C11", "C01-r4-2": "C16", "C01-r4-3": "C04", "C03-r4-1": "C13", "C04-r4-4": "C08",
-         "C05-r4-4": "C13", "C08-r4-2": "C18", "C15-r4-4": "C13"}
+         "C05-r4-4": "C13", "C08-r4-2": "C18", "C15-r4-4": "C13",
+         "C08-r7-2": "C18", "C01-r7-2": "C07"}
 tier = sys.argv[1] if len(sys.argv) > 1 else "quick"
 only = sys.argv[2:]
 res = {}
